@@ -47,6 +47,7 @@ func coldSnapshots(t *testing.T, st ustate) []snapshot {
 		return s
 	}
 	var out []snapshot
+	engine.GCPoint(1)
 	synctest.Test(t, func(t *testing.T) {
 		cold := newServer(t, st.objects())
 		for _, p := range proxies {
@@ -78,6 +79,7 @@ func runHistory(t *testing.T, h history, mode string) (fs []finding, rs runStats
 		label string
 	}
 	var points []point
+	engine.GCPoint(1)
 	synctest.Test(t, func(t *testing.T) {
 		srv := newServer(t, st.objects())
 		var sotw, delta, all []*client
